@@ -962,7 +962,9 @@ def df(th, method, x, T):
     return None if d is None or np.ndim(d) > 0 and d.dtype == object else float(d)
 
 
-def part_thermo(ctx, res, th, system, prec, Ts, stoich=True):
+def part_thermo(ctx, res, th, system, prec, Ts, stoich=True, sfx=''):
+    """sfx: appended to the violation keys of a second description of the same system (names the class: database / site
+    ratios); the recorded finding about the curvature method keeps its key (same class for every database)"""
     vlib.use_repo()
     tol_off = OFFSET + 1e-3          # the documented offset plus the resolution of the sampling method
     for T in Ts:
@@ -980,7 +982,7 @@ def part_thermo(ctx, res, th, system, prec, Ts, stoich=True):
             if xi == -1:
                 continue
             if prevx is not None and not xi > prevx[1] and gi > prevx[0] * (1 + 1e-9) + 1e-6:
-                res.violate('xalpha-not-increasing-in-g', 'interfacial matrix composition does not rise with g', dict(desc0, g_pair=[prevx[0], gi]), [prevx[1], xi])
+                res.violate('xalpha-not-increasing-in-g' + sfx, 'interfacial matrix composition does not rise with g', dict(desc0, g_pair=[prevx[0], gi]), [prevx[1], xi])
             prevx = (gi, xi)
             # for a precipitate with a composition range only the parallel-tangent method is exact: sampling is limited by
             # its resolution (Cu4Ti: up to -12 J/mol) and 'approximate' assumes the equilibrium precipitate composition
@@ -990,11 +992,11 @@ def part_thermo(ctx, res, th, system, prec, Ts, stoich=True):
                 res.count('thermo:DF(xalpha(g))=g:' + mth)
                 tol = tol_off + 1e-6 * abs(gi)
                 if d is None or abs(d - gi) > tol:
-                    res.violate('df-at-xalpha-differs-from-g:' + mth, 'driving force at the interfacial matrix composition returned for g is not g within the 1 J/mol offset',
+                    res.violate('df-at-xalpha-differs-from-g:' + mth + sfx, 'driving force at the interfacial matrix composition returned for g is not g within the 1 J/mol offset',
                                 dict(desc0, g=gi, xalpha=xi, method=mth), d, '%g +- %g' % (gi, tol))
         st = np.nonzero(xa == -1)[0]
         if len(st) and not np.all(xa[st[0]:] == -1):
-            res.violate('sentinel-not-monotone-in-g', 'unstable at some g but stable at a larger g', dict(desc0, g=g.tolist()), xa.tolist())
+            res.violate('sentinel-not-monotone-in-g' + sfx, 'unstable at some g but stable at a larger g', dict(desc0, g=g.tolist()), xa.tolist())
         # ---- sign change at the planar solvus, monotone in supersaturation, agreement of the methods
         rels = sorted(set([0.3, 0.8, 0.95, 1.05, 1.3, 3.0, 10.0] + [10 ** ctx.rng.uniform(-0.7, 1.3) for _ in range(ctx.n(3, 8))] + [1.004, 1.015]))
         xs = [xeq * r for r in rels if xeq * r < 0.1]
@@ -1006,20 +1008,20 @@ def part_thermo(ctx, res, th, system, prec, Ts, stoich=True):
             res.case(('thermo-x', system, round(T, 3), round(r, 6)), True)
             res.count('thermo:DF(x)-points')
             if any(val is None for val in v.values()):
-                res.violate('df-none', 'a driving-force method returned None inside the composition range', desc, v); continue
+                res.violate('df-none' + sfx, 'a driving-force method returned None inside the composition range', desc, v); continue
             away = abs(r - 1) >= 0.04
             if away:
                 want = 1 if r > 1 else -1
                 for mth in METHODS:
                     if ((v[mth] > 0) - (v[mth] < 0)) != want:
-                        res.violate('df-sign-at-solvus:' + mth, 'driving force does not change sign at the planar solvus x_alpha(0)', desc, v[mth], 'sign %+d' % want)
+                        res.violate('df-sign-at-solvus:' + mth + sfx, 'driving force does not change sign at the planar solvus x_alpha(0)', desc, v[mth], 'sign %+d' % want)
             else:
                 res.near_tie_skipped += 1
             if stoich:
                 ref = v['tangent']
                 for mth in ('sampling', 'approximate'):
                     if abs(v[mth] - ref) > tol_off + 1e-6 * abs(ref):
-                        res.violate('df-methods-value:' + mth, 'driving-force methods differ by more than the offset for the stoichiometric precipitate', desc, v, 'within %g of tangent' % tol_off)
+                        res.violate('df-methods-value:' + mth + sfx, 'driving-force methods differ by more than the offset for the stoichiometric precipitate', desc, v, 'within %g of tangent' % tol_off)
                 # tangent/approximate return the value with or without the offset depending on the cached composition sets:
                 # compare the curvature method with the nearest of the three
                 dev = min(abs(v['curvature'] - v[mth]) for mth in ('tangent', 'sampling', 'approximate'))
@@ -1028,13 +1030,403 @@ def part_thermo(ctx, res, th, system, prec, Ts, stoich=True):
                         # first-order (small supersaturation) expansion by construction: recorded finding
                         res.violate('curvature-df-value-away-from-solvus', 'curvature method differs from the other methods by more than the offset away from the solvus', desc, v)
                     else:
-                        res.violate('curvature-df-value-near-solvus', 'curvature method differs from the other methods by more than the offset near the solvus', desc, v)
+                        res.violate('curvature-df-value-near-solvus' + sfx, 'curvature method differs from the other methods by more than the offset near the solvus', desc, v)
         for mth in METHODS:
             vv = vals[mth]
             for j in range(len(xs) - 1):
                 if vv[j] is not None and vv[j + 1] is not None and xs[j + 1] > xs[j] * (1 + 1e-6) and not vv[j + 1] > vv[j]:
-                    res.violate('df-not-increasing-with-supersaturation:' + mth, 'driving force does not increase with the matrix composition', dict(desc0, x_pair=[xs[j], xs[j + 1]], method=mth), [vv[j], vv[j + 1]])
+                    res.violate('df-not-increasing-with-supersaturation:' + mth + sfx, 'driving force does not increase with the matrix composition', dict(desc0, x_pair=[xs[j], xs[j + 1]], method=mth), [vv[j], vv[j + 1]])
                     break
+
+
+# =====================================================================================================
+# part 3b: the same physical system in two database conventions (site ratios 0.75:0.25 and 3:1)
+# =====================================================================================================
+ALSCZR = 'Al-Zr/AlScZr.tdb'        # examples/AlScZr.tdb restricted to AL-ZR: PHASE AL3ZR % 2 3 1 (4 atoms per formula unit)
+_ALSCZR = []
+
+
+def therm_alsczr():
+    if not _ALSCZR:
+        vlib.use_repo()
+        from kawin.thermo import BinaryThermodynamics
+        with warnings.catch_warnings():
+            warnings.simplefilter('ignore')
+            th = BinaryThermodynamics(os.path.join(vlib.REPO, 'examples', 'AlScZr.tdb'), ['AL', 'ZR'], ['FCC_A1', 'AL3ZR'], drivingForceMethod='tangent')
+            th.setDFSamplingDensity(2000); th.setEQSamplingDensity(500)
+        _ALSCZR.append(th)
+    return _ALSCZR[0]
+
+
+def site_ratio_sum(th, prec):
+    """atoms per formula unit of the precipitate description as the database writes it"""
+    return float(sum(float(r) for r in th.db.phases[prec].sublattices))
+
+
+def _system(name):
+    """(thermodynamics object, precipitate, stoichiometric?, key suffix) of a system name used in the cases"""
+    import kwnruns
+    if name == 'Al-Zr':
+        return kwnruns.therm_binary(), 'AL3ZR', True, ''
+    if name == ALSCZR:
+        th = therm_alsczr()
+        return th, 'AL3ZR', True, ':site-ratio-sum=%g' % site_ratio_sum(th, 'AL3ZR')
+    if name == 'Cu-Ti':
+        return therm_cuti(), 'CU4TI', False, ''
+    raise KeyError(name)
+
+
+def part_crossdb(ctx, res, Ts):
+    """the two shipped descriptions of Al-Zr (kawin/tests ALZR_TDB: Al3Zr written 0.75:0.25; examples/AlScZr.tdb: 3:1) are the
+    same physical system: the interfacial compositions for the same (T, g) and the driving forces of every method for the
+    same (x, T) have to coincide"""
+    thA, prec, _, _ = _system('Al-Zr')
+    thB, _, _, sfx = _system(ALSCZR)
+    tol_off = OFFSET + 1e-3
+    for T in Ts:
+        g = np.concatenate(([0.0], np.sort([ctx.rng.uniform(0, 1) ** 2 * 12000 for _ in range(ctx.n(4, 10))])))
+        xaA, xbA = (np.atleast_1d(v).astype(float) for v in thA.getInterfacialComposition(T, g.copy(), precPhase=prec))
+        xaB, xbB = (np.atleast_1d(v).astype(float) for v in thB.getInterfacialComposition(T, g.copy(), precPhase=prec))
+        desc0 = dict(system=ALSCZR, other='Al-Zr', T=T, crossdb=True)
+        for i, gi in enumerate(g):
+            res.case(('crossdb-ic', round(T, 3), round(gi, 6)), gi > 0)
+            res.count('crossdb:xalpha(T,g)')
+            if (xaA[i] == -1) != (xaB[i] == -1):
+                res.violate('databases-disagree:sentinel' + sfx, 'precipitate stable at (T, g) for one description of Al-Zr and unstable for the other', dict(desc0, g=gi), [xaA[i], xaB[i]])
+            elif xaA[i] != -1 and not (close(xaA[i], xaB[i], 1e-6) and close(xbA[i], xbB[i], 1e-6)):
+                res.violate('databases-disagree:xalpha' + sfx, 'interfacial composition for the same (T, g) differs between the two descriptions of Al-Zr (0.75:0.25 and 3:1)',
+                            dict(desc0, g=gi), [xaB[i], xbB[i]], [xaA[i], xbA[i]])
+        if xaA[0] == -1:
+            continue
+        xs = [xaA[0] * r for r in (0.5, 0.9, 1.2, 2.0, 6.0, 10 ** ctx.rng.uniform(-0.5, 1.5), 10 ** ctx.rng.uniform(-0.5, 1.5)) if xaA[0] * r < 0.1]
+        for x in xs:
+            for mth in METHODS:
+                a, b = df(thA, mth, x, T), df(thB, mth, x, T)
+                res.case(('crossdb-df', round(T, 3), x, mth), True)
+                res.count('crossdb:DF(x,T):' + mth)
+                if a is None or b is None:
+                    if (a is None) != (b is None):
+                        res.violate('databases-disagree:df-none:' + mth + sfx, 'driving force available for one description of Al-Zr only', dict(desc0, x=x, method=mth), [a, b])
+                    continue
+                # tangent / approximate carry the 1 J/mol offset or not depending on the cached composition sets
+                tol = (1e-3 if mth == 'sampling' else tol_off) + 1e-6 * abs(a)
+                if abs(a - b) > tol:
+                    res.violate('databases-disagree:df:' + mth + sfx, 'driving force at the same (x, T) differs between the two descriptions of Al-Zr (0.75:0.25 and 3:1)',
+                                dict(desc0, x=x, x_over_solvus=x / xaA[0], method=mth), b, '%r +- %g' % (a, tol))
+
+
+def extra_models():
+    """REAL ExtraGibbsModel objects: the precipitate models of the two Al-Zr descriptions and Al3Sc (3:1) of AlScZr.tdb"""
+    vlib.use_repo()
+    from kawin.thermo import Thermodynamics as TH
+    out = []
+    for name in ('Al-Zr', ALSCZR):
+        th, prec, _, _ = _system(name)
+        out.append((name + ':' + prec, th.models[prec]))
+    th = therm_alsczr()
+    if 'alsc' not in _MODELS:
+        with warnings.catch_warnings():
+            warnings.simplefilter('ignore')
+            _MODELS['alsc'] = TH.ExtraGibbsModel(th.db, ['AL', 'SC', 'VA'], 'AL3SC')
+    out.append((ALSCZR.replace('Al-Zr', 'Al-Sc') + ':AL3SC', _MODELS['alsc']))
+    return out
+
+
+def part_extra_model(ctx, res, use_driver=True):
+    """ExtraGibbsModel: translator validation of extraGM / extraG (driver on Float vs the properties of the real class, on
+    real model objects evaluated numerically and through the getters with floats) and the direct oracle: the extra energy
+    the two properties describe is the same energy - G(GE) - G(0) = N (GM(GE) - GM(0)), G = N GM"""
+    from pycalphad import variables as v
+    items, lines = [], []
+    for name, mod in extra_models():
+        for _ in range(ctx.n(12, 200)):
+            T = ctx.rng.uniform(300, 1200)
+            GE = ctx.rng.choice([0.0, 1.0, ctx.rng.uniform(0, 30000), -ctx.rng.uniform(0, 5000), 10 ** ctx.rng.uniform(0, 5)])
+            sub = {y: 1.0 for y in mod.site_fractions}
+            sub.update({v.T: T, v.P: 101325.0, v.N: 1.0})
+            s1 = dict(sub); s1[v.GE] = GE
+            s0 = dict(sub); s0[v.GE] = 0.0
+            val = lambda e, ss: float(e.subs(ss))
+            o = dict(model=name, T=T, GE=GE, ast=val(mod.ast, s1), N=val(mod._site_ratio_normalization, s1),
+                     GM=val(mod.GM, s1), G=val(mod.G, s1), GM0=val(mod.GM, s0), G0=val(mod.G, s0),
+                     energy=val(mod.energy, s1), formulaenergy=val(mod.formulaenergy, s1))
+            items.append(o)
+            lines.append('gen.extra %s %s %s' % (f2b(o['ast']), f2b(GE), f2b(o['N'])))
+    # the getters run on floats (no pycalphad): arbitrary ast, GE, N
+    for _ in range(ctx.n(200, 4000)):
+        a, GE, N = -10 ** ctx.rng.uniform(2, 5.5), ctx.rng.choice([0.0, ctx.rng.uniform(-5000, 30000)]), ctx.rng.choice([1.0, 4.0, 5.0, 2.0, 13.0, ctx.rng.uniform(0.5, 30)])
+        gm, G = trace_extra_gibbs(lambda n, v0, d={'ast': a, 'GE': GE, 'N': N}: d[n])
+        gm0, G0 = trace_extra_gibbs(lambda n, v0, d={'ast': a, 'GE': 0.0, 'N': N}: d[n])
+        items.append(dict(model='getters-on-floats', T=None, GE=GE, ast=a, N=N, GM=float(gm), G=float(G), GM0=float(gm0), G0=float(G0), energy=float(gm), formulaenergy=float(G)))
+        lines.append('gen.extra %s %s %s' % (f2b(a), f2b(GE), f2b(N)))
+    model = vlib.run_driver(PROP, lines) if (use_driver and ctx.driver_ok) else None
+    for k, o in enumerate(items):
+        N = o['N']
+        cls = 'N=1' if N == 1 else 'N=%g' % N if N == round(N) else 'N-other'
+        res.case(('extra', o['model'], o['T'], o['GE'], N), N != 1 and o['GE'] != 0)
+        res.count('extra:' + ('real-model:' + cls if o['T'] is not None else 'getters-on-floats'))
+        sc = abs(o['ast'] * N) + abs(o['GE'] * N)
+        if model is not None:
+            t = Toks(model[k]); m = t.flts() if t.ok else None
+            if m is None or not close(m[0], o['GM'], 1e-9, sc / N) or not close(m[1], o['G'], 1e-9, sc):
+                res.disagree('gen extraGM/extraG vs ExtraGibbsModel.GM/.G', o, [o['GM'], o['G']], m)
+        # ---- direct oracle (real values only)
+        kc = ':' + cls
+        if o['energy'] != o['GM'] or o['formulaenergy'] != o['G']:
+            res.violate('extra-gibbs-alias' + kc, 'ExtraGibbsModel.energy / .formulaenergy differ from .GM / .G', o, [o['energy'], o['formulaenergy']], [o['GM'], o['G']])
+        dGM, dG = o['GM'] - o['GM0'], o['G'] - o['G0']
+        if not close(dGM, o['GE'], 1e-9, abs(o['ast'])):
+            res.violate('extra-energy-per-atom-not-GE' + kc, 'ExtraGibbsModel.GM does not rise by GE when the extra energy GE is added (energy per mole of atoms)', o, dGM, o['GE'])
+        if not close(dG, N * dGM, 1e-9, sc):
+            res.violate('extra-energy-per-formula-not-N-times-per-atom' + kc,
+                        'ExtraGibbsModel.G (formula energy, equilibrium solver) and .GM (per mole of atoms, sampling) do not carry the same extra energy: G(GE) - G(0) is not N (GM(GE) - GM(0)), N = atoms per formula unit',
+                        o, dG, N * dGM)
+        if not close(o['G'], N * o['GM'], 1e-9, sc):
+            res.violate('formula-energy-not-N-times-molar-energy' + kc, 'ExtraGibbsModel.G is not N * GM', o, o['G'], N * o['GM'])
+
+
+# =====================================================================================================
+# part 3c: array call forms of getInterfacialComposition / getDrivingForce
+# =====================================================================================================
+def t_class(Ts):
+    """the class of a temperature array that decides the dispatch (and names the violation key)"""
+    Ts = [float(t) for t in np.atleast_1d(Ts)]
+    if len(Ts) == 1:
+        return 'single'
+    if all(t == Ts[0] for t in Ts):
+        return 'constant'
+    if Ts[0] == Ts[-1]:
+        return 'cycle(first==last,not-constant)'
+    if all(a < b for a, b in zip(Ts, Ts[1:])) or all(a > b for a, b in zip(Ts, Ts[1:])):
+        return 'ramp'
+    return 'mixed' + ('-with-repeats' if len(set(Ts)) < len(Ts) else '')
+
+
+def gen_T_form(rng, lo, hi, nmax):
+    """(kind, argument as passed, list) - temperature argument of an array query"""
+    kind = rng.choice(['scalar', 'len1', 'const', 'ramp-up', 'ramp-down', 'cycle', 'cycle', 'cycle-down', 'perm', 'repeats', 'first-last', 'first-last',
+                       'all-but-one', 'abab'])
+    n = 1 if kind in ('scalar', 'len1') else rng.randint(3 if kind in ('cycle', 'cycle-down', 'first-last', 'abab') else 2, nmax)
+    a, b = sorted([rng.uniform(lo, hi), rng.uniform(lo, hi)])
+    if b - a < 5:
+        b = a + 5
+    if kind in ('scalar', 'len1'):
+        T = [a]
+    elif kind == 'const':
+        T = [a] * n
+    elif kind == 'ramp-up':
+        T = np.linspace(a, b, n).tolist()
+    elif kind == 'ramp-down':
+        T = np.linspace(b, a, n).tolist()
+    elif kind in ('cycle', 'cycle-down'):
+        h = (n + 1) // 2
+        up = np.linspace(a, b, h).tolist() if kind == 'cycle' else np.linspace(b, a, h).tolist()
+        T = up + up[::-1][(1 if n % 2 else 0):]
+        T = T[:n - 1] + [T[0]]
+    elif kind == 'perm':
+        T = [rng.uniform(lo, hi) for _ in range(n)]
+    elif kind == 'repeats':
+        base = [rng.uniform(lo, hi) for _ in range(rng.randint(1, 3))]
+        T = [rng.choice(base) for _ in range(n)]
+    elif kind == 'first-last':
+        T = [rng.uniform(lo, hi) for _ in range(n)]
+        T[-1] = T[0]
+    elif kind == 'all-but-one':
+        T = [a] * n
+        T[rng.randrange(n)] = b
+    else:
+        T = [a if i % 2 == 0 else b for i in range(n)]
+        if n % 2 == 0:
+            T.append(a)
+    arg = float(T[0]) if kind == 'scalar' else (np.array(T, dtype=float) if rng.random() < 0.8 else list(T))
+    return kind, arg, [float(t) for t in T]
+
+
+def gen_g_form(rng, n, gmax, allow_mismatch=True):
+    """gExtra argument for n temperatures: scalar, length-1 array, array of n, (rarely) an array of another length"""
+    kind = rng.choice(['scalar', 'len1', 'array', 'array', 'array', 'zeros', 'const'] + (['mismatch'] if allow_mismatch and n >= 2 else []))
+    if n == 1 and kind in ('array', 'zeros', 'const'):
+        m = rng.randint(1, 5)
+    elif kind == 'mismatch':
+        m = rng.choice([k for k in range(2, n + 3) if k != n])
+    else:
+        m = 1 if kind in ('scalar', 'len1') else n
+    if kind == 'zeros':
+        g = [0.0] * m
+    elif kind == 'const':
+        g = [rng.uniform(0, gmax)] * m
+    else:
+        g = [rng.choice([0.0, rng.uniform(0, gmax), rng.uniform(0, 1) ** 2 * gmax]) for _ in range(m)]
+    arg = float(g[0]) if kind == 'scalar' else (np.array(g, dtype=float) if rng.random() < 0.8 else list(g))
+    return kind, arg, [float(v) for v in g]
+
+
+def _copy_arg(a):
+    return a.copy() if isinstance(a, np.ndarray) else (list(a) if isinstance(a, list) else a)
+
+
+def _case_from_desc(c):
+    """rebuild the call arguments of an array-form case from its description (replay)"""
+    Ts, gs = [float(t) for t in c['T']], [float(g) for g in c['g']]
+    Targ = Ts[0] if c['T_form'] == 'scalar' else np.array(Ts)
+    garg = gs[0] if c['g_form'] == 'scalar' else np.array(gs)
+    return (c['T_form'], Targ, Ts, c['g_form'], garg, gs)
+
+
+def replay_dispatch(ctx, res, c):
+    part_dispatch(ctx, res, 0, use_driver=False, cases=[_case_from_desc(c)])
+
+
+def replay_batch(ctx, res, c):
+    part_batch_real(ctx, res, c['system'], 0, cases=[_case_from_desc(c)])
+
+
+def part_dispatch(ctx, res, N, use_driver=True, cases=None):
+    """the REAL BinaryThermodynamics.getInterfacialComposition (broadcasting + dispatch) with `_interfacialComposition`
+    replaced by a recording pattern backend f(T, g): (a) the calls made vs the model KawinV.IC.getIC, (b) direct oracle:
+    entry i of the answer is f(T_i, g_i), shape as documented, ValueError exactly for incompatible lengths"""
+    import kwnruns
+    th = kwnruns.therm_binary()
+    fa = lambda T, g: T * 1e-6 + g * 1e-9
+    fb = lambda T, g: 0.25 + T * 1e-7 - g * 1e-10
+    log = []
+
+    def stub(T, g, precPhase):
+        g1 = np.atleast_1d(np.asarray(g, dtype=float))
+        log.append((float(T), g1.tolist(), np.ndim(T)))
+        return np.squeeze(fa(float(T), g1)), np.squeeze(fb(float(T), g1))
+    items = []
+    keep = th.__dict__.get('_interfacialComposition')
+    th._interfacialComposition = stub
+    try:
+        if cases is None:
+            cases = []
+            for _ in range(N):
+                tk, Targ, Ts = gen_T_form(ctx.rng, 500, 950, 9)
+                cases.append((tk, Targ, Ts) + gen_g_form(ctx.rng, len(Ts), 20000))
+        for tk, Targ, Ts, gk, garg, gs in cases:
+            del log[:]
+            out = err = None
+            try:
+                out = th.getInterfacialComposition(_copy_arg(Targ), _copy_arg(garg))
+            except ValueError as e:
+                err = 'ValueError'
+            except Exception as e:
+                err = type(e).__name__ + ': ' + str(e)[:80]
+            items.append((tk, gk, Ts, gs, out, err, [(c[0], list(c[1])) for c in log], any(c[2] != 0 for c in log)))
+    finally:
+        if keep is None:
+            del th.__dict__['_interfacialComposition']
+        else:
+            th._interfacialComposition = keep
+    model = vlib.run_driver(PROP, ['ic.dispatch %s %s' % (enc_list(Ts), enc_list(gs)) for _, _, Ts, gs, _, _, _, _ in items]) if (use_driver and ctx.driver_ok) else None
+    for k, (tk, gk, Ts, gs, out, err, calls, nonscalarT) in enumerate(items):
+        n = max(len(Ts), len(gs))
+        ok_len = len(Ts) == len(gs) or len(Ts) == 1 or len(gs) == 1
+        Tb = Ts * n if len(Ts) == 1 and n > 1 else Ts
+        gb = gs * n if len(gs) == 1 and n > 1 else gs
+        tc = t_class(Tb) if ok_len else 'length-mismatch'
+        cls = 'T-%s:g-%s' % (tc, 'scalar' if len(gs) == 1 else 'array')
+        desc = dict(dispatch=True, T_form=tk, g_form=gk, T=Ts, g=gs)
+        res.case(('dispatch', tk, gk, tuple(Ts), tuple(gs)), ok_len and n > 1 and tc != 'constant')
+        res.count('dispatch:' + cls)
+        if len(res.samples) < 3 and tc.startswith('cycle'):
+            res.sample(dict(desc, calls=len(calls)))
+        if model is not None:
+            t = Toks(model[k])
+            if not t.ok:
+                res.disagree('ic.dispatch model error', desc, 'ok', t.err)
+            elif t.t[1:] == ['E']:
+                if err != 'ValueError':
+                    res.disagree('dispatch model (ValueError) vs getInterfacialComposition', desc, err or 'returned', 'ValueError')
+            else:
+                nc = t.nat(); mc = []
+                for _ in range(nc):
+                    mT = t.flt(); mc.append((mT, t.flts()))
+                if err is not None or mc != calls:
+                    res.disagree('dispatch model vs the _interfacialComposition calls of getInterfacialComposition', desc, err or calls, mc)
+        # ---- direct oracle, independent of the model
+        if not ok_len:
+            if err != 'ValueError':
+                res.violate('ic-array-form:incompatible-lengths-accepted', 'T and gExtra of incompatible lengths did not raise the documented ValueError', desc, err or repr(out), 'ValueError')
+            continue
+        if err is not None:
+            res.violate('ic-array-form:raised:' + cls, 'getInterfacialComposition raised on a documented call form', desc, err, 'an answer'); continue
+        xa, xb = out
+        want_shape = () if n == 1 else (n,)
+        if np.shape(xa) != want_shape or np.shape(xb) != want_shape:
+            res.violate('ic-array-form:shape:' + cls, 'answer does not have one entry per condition', desc, [list(np.shape(xa)), list(np.shape(xb))], list(want_shape)); continue
+        wa = [fa(T, g) for T, g in zip(Tb, gb)]; wb = [fb(T, g) for T, g in zip(Tb, gb)]
+        ga, gbv = np.atleast_1d(xa).astype(float).tolist(), np.atleast_1d(xb).astype(float).tolist()
+        if ga != wa or gbv != wb:
+            i = next(i for i in range(n) if ga[i] != wa[i] or gbv[i] != wb[i])
+            res.violate('ic-array-form:not-elementwise:' + cls,
+                        'entry %d of the array answer is not the answer for (T[%d], gExtra[%d]) (pattern backend: every entry encodes the (T, g) it was evaluated at)' % (i, i, i),
+                        dict(desc, index=i, calls=calls[:6], evaluated_at_T=(ga[i] - gb[i] * 1e-9) * 1e6), [ga[i], gbv[i]], [wa[i], wb[i]])
+        if nonscalarT:
+            res.violate('ic-array-form:backend-given-array-T:' + cls, '_interfacialComposition was handed a temperature array', desc, calls[:3], 'scalar T per call')
+
+
+def part_batch_real(ctx, res, system, N, cases=None):
+    """array call forms on the real thermodynamics: the array answer equals the element-wise scalar answers (sentinels
+    included) and obeys C12's own oracle element by element: DF(x_alpha_i, T_i) = g_i within the offset, also through the
+    (array x, array T) form of getDrivingForce"""
+    th, prec, stoich, sfx = _system(system)
+    tol_off = OFFSET + 1e-3
+    if cases is None:
+        cases = []
+        for _ in range(N):
+            tk, Targ, Ts = gen_T_form(ctx.rng, 580, 880, 5)
+            gmax = ctx.rng.choice([9000, 9000, 14000, 40000])
+            cases.append((tk, Targ, Ts) + gen_g_form(ctx.rng, len(Ts), gmax, allow_mismatch=False))
+    for tk, Targ, Ts, gk, garg, gs in cases:
+        n = max(len(Ts), len(gs))
+        Tb = Ts * n if len(Ts) == 1 and n > 1 else Ts
+        gb = gs * n if len(gs) == 1 and n > 1 else gs
+        tc = t_class(Tb)
+        cls = 'T-%s:g-%s' % (tc, 'scalar' if len(gs) == 1 else 'array')
+        desc = dict(batch=True, system=system, T_form=tk, g_form=gk, T=Ts, g=gs)
+        xa, xb = th.getInterfacialComposition(_copy_arg(Targ), _copy_arg(garg), precPhase=prec)
+        res.case(('batch', system, tk, gk, tuple(Ts), tuple(gs)), n > 1 and tc != 'constant')
+        res.count('batch:' + cls)
+        if np.shape(xa) != (() if n == 1 else (n,)):
+            res.violate('ic-array-form:shape:' + cls + sfx, 'answer does not have one entry per condition', desc, list(np.shape(xa)), n); continue
+        xa, xb = np.atleast_1d(xa).astype(float), np.atleast_1d(xb).astype(float)
+        # element-wise scalar queries (scalar T, scalar g)
+        sa, sb = [], []
+        for T, g in zip(Tb, gb):
+            a, b = th.getInterfacialComposition(float(T), float(g), precPhase=prec)
+            sa.append(float(a)); sb.append(float(b))
+        for i in range(n):
+            d = dict(desc, index=i, T_i=Tb[i], g_i=gb[i])
+            if (xa[i] == -1) != (sa[i] == -1) or (xb[i] == -1) != (sb[i] == -1):
+                res.violate('ic-array-form:sentinel-differs-from-scalar-call:' + cls + sfx, 'array answer and scalar answer for the same (T_i, g_i) disagree on whether the precipitate is stable', d, [xa[i], xb[i]], [sa[i], sb[i]])
+                continue
+            if xa[i] == -1:
+                res.count('batch:sentinel'); continue
+            if not (close(xa[i], sa[i], 1e-9) and close(xb[i], sb[i], 1e-9)):
+                res.violate('ic-array-form:differs-from-scalar-call:' + cls + sfx, 'entry of the array answer differs from the scalar query at the same (T_i, g_i)', d, [xa[i], xb[i]], [sa[i], sb[i]])
+            res.count('batch:entry-bit-identical' if xa[i] == sa[i] else 'batch:entry-close')
+            dv = df(th, 'tangent', xa[i], Tb[i])
+            tol = tol_off + 1e-6 * abs(gb[i])
+            if dv is None or abs(dv - gb[i]) > tol:
+                res.violate('ic-array-form:df-at-xalpha-differs-from-g:' + cls + sfx,
+                            'driving force at entry i of the array answer, at temperature T_i, is not g_i within the 1 J/mol offset', d, dv, '%g +- %g' % (gb[i], tol))
+        # the (array x, array T) form of the driving-force query on the returned compositions
+        ok = [i for i in range(n) if xa[i] != -1]
+        if len(ok) >= 2:
+            with warnings.catch_warnings():
+                warnings.simplefilter('ignore')
+                dd, _ = th.getDrivingForce(np.array([xa[i] for i in ok]), np.array([Tb[i] for i in ok]), precPhase=prec)
+            dd = np.atleast_1d(dd)
+            if dd.shape != (len(ok),) or dd.dtype == object:
+                res.violate('df-array-form:shape:' + cls + sfx, 'getDrivingForce(array x, array T) does not return one value per condition', desc, repr(dd)[:200], len(ok))
+            else:
+                for j, i in enumerate(ok):
+                    tol = tol_off + 1e-6 * abs(gb[i])
+                    if abs(float(dd[j]) - gb[i]) > tol:
+                        res.violate('df-array-form:df-at-xalpha-differs-from-g:' + cls + sfx, 'entry of getDrivingForce(array x, array T) at (x_alpha_i, T_i) is not g_i within the offset',
+                                    dict(desc, index=i, T_i=Tb[i], g_i=gb[i], xalpha_i=xa[i]), float(dd[j]), '%g +- %g' % (gb[i], tol))
 
 
 # =====================================================================================================
@@ -1164,6 +1556,10 @@ def corr(ctx):
         Ts = [ctx.rng.uniform(580, 880) for _ in range(ctx.n(8, 40))]
         part_thermo(ctx, res, th, 'Al-Zr', 'AL3ZR', Ts)
     _guard(errors, res, 'thermo', thermo)
+    _guard(errors, res, 'extra-gibbs-model', lambda: part_extra_model(ctx, res))
+    _guard(errors, res, 'thermo-second-database', lambda: part_second_database(ctx, res))
+    _guard(errors, res, 'dispatch', lambda: part_dispatch(ctx, res, ctx.n(1500, 20000)))
+    _guard(errors, res, 'array-forms', lambda: part_array_forms(ctx, res))
     if ctx.thorough:
         def cuti():
             cu = therm_cuti()
@@ -1176,6 +1572,20 @@ def corr(ctx):
     _guard(errors, res, 'runs', lambda: part_runs(ctx, res))
     _finish(errors, res)
     return res
+
+
+def part_second_database(ctx, res):
+    """the thermodynamic oracles on examples/AlScZr.tdb restricted to AL-ZR (Al3Zr written 3:1) and the comparison of the two
+    descriptions of Al-Zr"""
+    th, prec, stoich, sfx = _system(ALSCZR)
+    res.count('thermo:%s:site-ratio-sum=%g' % (ALSCZR, site_ratio_sum(th, prec)))
+    part_thermo(ctx, res, th, ALSCZR, prec, [ctx.rng.uniform(580, 880) for _ in range(ctx.n(3, 20))], stoich=stoich, sfx=sfx)
+    part_crossdb(ctx, res, [ctx.rng.uniform(580, 880) for _ in range(ctx.n(3, 20))])
+
+
+def part_array_forms(ctx, res):
+    part_batch_real(ctx, res, 'Al-Zr', ctx.n(14, 120))
+    part_batch_real(ctx, res, ALSCZR, ctx.n(4, 40))
 
 
 def _guard(errors, res, name, fn):
@@ -1229,7 +1639,7 @@ def search(ctx, broken):
     """something no longer checks: direct oracle alone on a larger sample of the algebraic clauses (real functions),
     with strain energy and non-spherical shapes over-represented, plus the run observers"""
     res = Result()
-    res.rule = 'search: oracle-only formula cases on the real functions + run observers'
+    res.rule = 'search: oracle-only formula cases on the real functions, ExtraGibbsModel probe, array-form dispatch on the pattern backend, both Al-Zr databases, array forms on the real thermodynamics, run observers'
     cases = []
     for _ in range(ctx.n(1500, 12000)):
         c = gen_formula_case(ctx.rng)
@@ -1238,6 +1648,11 @@ def search(ctx, broken):
         cases.append(c)
     errors = []
     _guard(errors, res, 'search-formulas', lambda: check_formula_cases(ctx, res, cases, use_driver=False))
+    # oracle-only versions of the database / array-form parts (cheap: always run)
+    _guard(errors, res, 'search-extra-gibbs-model', lambda: part_extra_model(ctx, res, use_driver=False))
+    _guard(errors, res, 'search-dispatch', lambda: part_dispatch(ctx, res, ctx.n(4000, 40000), use_driver=False))
+    _guard(errors, res, 'search-second-database', lambda: part_second_database(ctx, res))
+    _guard(errors, res, 'search-array-forms', lambda: part_array_forms(ctx, res))
     if not res.violations:
         _guard(errors, res, 'search-runs', lambda: part_runs(ctx, res))
     return res
@@ -1255,10 +1670,17 @@ def replay(ctx, entry):
         if isinstance(cfg['x0'], list):
             cfg['x0'] = tuple(cfg['x0'])
         run_case(ctx, res, cfg)
+    elif c.get('dispatch'):
+        replay_dispatch(ctx, res, c)
+    elif c.get('batch'):
+        replay_batch(ctx, res, c)
+    elif 'model' in c and 'ast' in c:
+        part_extra_model(ctx, res, use_driver=False)
+    elif c.get('crossdb'):
+        part_crossdb(ctx, res, [c['T']])
     elif 'system' in c and 'T' in c:
-        import kwnruns
-        th = kwnruns.therm_binary() if c['system'] == 'Al-Zr' else therm_cuti()
-        part_thermo(ctx, res, th, c['system'], 'AL3ZR' if c['system'] == 'Al-Zr' else 'CU4TI', [c['T']], stoich=c['system'] == 'Al-Zr')
+        th, prec, stoich, sfx = _system(c['system'])
+        part_thermo(ctx, res, th, c['system'], prec, [c['T']], stoich=stoich, sfx=sfx)
     else:
         return None
     for w in res.violations:
